@@ -1,5 +1,6 @@
 """C16 - update-candidate info and DFU partition images describe the envelope file (DESIGN.md section 5, C16)."""
 import os
+import random
 import struct
 
 from .. import core, drive
@@ -126,6 +127,24 @@ def run_case(rec, case):
     else:
         src_used = src
     full = dict(case, size=size, dfu=dfu, uci=uci, caches=caches, route=route, spelling=spelling)
+    if route in ("lib", "cmd") and spelling is None and random.Random(f"failed-first/{case['seed']}/{case['n']}").random() < 0.15:
+        # history: the SAME command on the SAME input path failed a moment ago (its output directory did not exist) while
+        # the path still held the previous build's envelope; the file has been rebuilt since.  Nothing the failed run
+        # read may show in this result.
+        with open(src, "wb") as fh:
+            fh.write(random.Random(f"old/{case['n']}").randbytes(size + 37))
+        nowhere = os.path.join(wd, f"no_such_dir_{case['n']}")
+        try:
+            from suit_generator.cmd_image import ImageCreator
+            ImageCreator.create_files_for_update(src, os.path.join(nowhere, "s.hex"), os.path.join(nowhere, "p.hex"),
+                                                 uci, dfu, caches)
+            rec.count("history:earlier-run-unexpectedly-succeeded")
+        except BaseException as e:  # noqa
+            if isinstance(e, KeyboardInterrupt):
+                raise
+            rec.count("history:same-input-path-after-a-failed-run-and-a-rebuild")
+        with open(src, "wb") as fh:
+            fh.write(data)
     def invoke():
         exc = None
         try:
